@@ -1,6 +1,7 @@
 package main
 
 import (
+	"strings"
 	"fmt"
 	"go/token"
 	"go/types"
@@ -29,6 +30,7 @@ func runC10(r *Report) {
 	c10R2(r)
 	c10R3(r)
 	c10R4(r)
+	c10R6(r)
 	// R5: shared with C17.R1
 	lt := lifetimeOf(r, "R5")
 	n := 0
@@ -492,4 +494,120 @@ func c10R4(r *Report) {
 	_ = reached2
 	r.Check(len(missing2) == 0, "R4", "Reader.Read/error-exits-withdraw", read.Pos(), "every exit of Read that gives up (EOF, cancellation, dead torrent, read error) withdraws the reader's priorities", "a path through Reader.Read returns after giving up without request(-1, -1): the pieces stay requested although nobody waits for them")
 	_ = types.Typ
+}
+
+// R6: the consumers' priorities of a requested piece form a multiset: a withdrawal removes exactly one instance.
+// Every store to RequestedPiece.prio is one of
+//   grow by one        append(prio, x)
+//   remove one at i    append(prio[:i], prio[i+1:]...)   /   slices.Delete(prio, i, i+1)
+//   clear              nil
+// and a removal is not repeated in the same call (after it, control reaches a return without passing it again).
+// Bulk forms (slices.DeleteFunc, a filtered rebuild, Compact) remove every reader's equal priority at once: the
+// piece is cancelled under a reader that still waits for it (found by a round-2 seeded change).
+func c10R6(r *Report) {
+	p := r.P
+	prio := p.Field("tor", "RequestedPiece", "prio")
+	if !r.Anchor("R6", "tor.RequestedPiece.prio", prio != nil) {
+		return
+	}
+	isPrioLoad := func(v ssa.Value) bool {
+		fv, _ := loadedField(v)
+		return fv == prio
+	}
+	// sliceOfPrio: v is prio[lo:hi]; returns lo, hi (nil for absent)
+	sliceOfPrio := func(v ssa.Value) (lo, hi ssa.Value, ok bool) {
+		sl, isSl := v.(*ssa.Slice)
+		if !isSl || !isPrioLoad(sl.X) {
+			return nil, nil, false
+		}
+		return sl.Low, sl.High, true
+	}
+	n := 0
+	for _, acc := range p.fieldAccesses(prio) {
+		if !acc.Write {
+			continue
+		}
+		fa, ok := acc.Instr.(*ssa.FieldAddr)
+		if !ok {
+			continue
+		}
+		for _, ref := range *fa.Referrers() {
+			st, isSt := ref.(*ssa.Store)
+			if !isSt || st.Addr != ssa.Value(fa) {
+				continue
+			}
+			n++
+			f := st.Parent()
+			r.Fn(f)
+			key := fmt.Sprintf("%s/store(prio)#%d", fname(f), n)
+			kind := ""
+			switch v := st.Val.(type) {
+			case *ssa.Const:
+				if isNilConst(v) {
+					kind = "clear"
+				}
+			case *ssa.Call:
+				if bi, okb := v.Call.Value.(*ssa.Builtin); okb && bi.Name() == "append" && len(v.Call.Args) == 2 {
+					a0, a1 := v.Call.Args[0], v.Call.Args[1]
+					if isPrioLoad(a0) {
+						// append(prio, x): the variadic slice holds exactly one element
+						if els := variadicElems(a1); len(els) == 1 {
+							kind = "grow"
+						}
+					} else if lo0, hi0, ok0 := sliceOfPrio(a0); ok0 && lo0 == nil && hi0 != nil {
+						if lo1, hi1, ok1 := sliceOfPrio(a1); ok1 && hi1 == nil && lo1 != nil {
+							if d, isc := polyAdd(polyOf(lo1, 0), polyOf(hi0, 0), -1).isConst(); isc && d == 1 {
+								kind = "remove-one"
+							}
+						}
+					}
+				} else if pk, nm := calleePkgName(v); pk == "slices" && nm == "Delete" && len(v.Call.Args) == 3 {
+					if isPrioLoad(v.Call.Args[0]) {
+						if d, isc := polyAdd(polyOf(v.Call.Args[2], 0), polyOf(v.Call.Args[1], 0), -1).isConst(); isc && d == 1 {
+							kind = "remove-one"
+						}
+					}
+				}
+			}
+			switch kind {
+			case "":
+				r.Fail("R6", key, st.Pos(), "RequestedPiece.prio is replaced by %s, which is not 'append one', 'remove the one element at i' or 'clear': a withdrawal may remove several consumers' equal priorities at once, cancelling the piece under a reader that still waits for it", exprStr(st.Val))
+			case "remove-one":
+				// not repeated: from the store, no path leads back to it
+				again := false
+				for b := range reachableFromSuccs(st.Block()) {
+					if b == st.Block() {
+						again = true
+					}
+				}
+				r.Check(!again, "R6", key, st.Pos(), "one instance of the priority is removed, once per call", "the removal of a priority sits in a loop that continues after it: one withdrawal removes every equal priority")
+			default:
+				r.Ok("R6", key, st.Pos(), "prio store of kind %s", kind)
+			}
+		}
+	}
+	r.Sentinel("R6", n, 2)
+}
+
+// calleePkgName: package path and base name of the static callee, seeing through generic instantiation
+// (slices.Delete[[]int8 int8] → "slices", "Delete").
+func calleePkgName(c *ssa.Call) (string, string) {
+	h := c.Call.StaticCallee()
+	if h == nil {
+		return "", ""
+	}
+	if o := h.Origin(); o != nil {
+		h = o
+	}
+	name := h.Name()
+	if i := strings.Index(name, "["); i > 0 {
+		name = name[:i]
+	}
+	if h.Pkg != nil {
+		return h.Pkg.Pkg.Path(), name
+	}
+	if obj := h.Object(); obj != nil && obj.Pkg() != nil {
+		return obj.Pkg().Path(), name
+	}
+	return "", name
 }
